@@ -1,7 +1,7 @@
 /-
   Line handlers for C06.
-    cell <fty> <rule[+rule]> <probe>   → "<spec> <spec>"   documented verdict (Tags.Spec.accept); the
-                                          model of the code for cells is the regenerated Gen.tagTable
+    cell <fty> <rule[+rule]> <probe>   → "<model> <spec>"  model: Mean.Code.accepts (∀-value transcription of the rule
+                                          loop) on the parsed tag text and the probe's value; spec: Tags.Spec.accept
     tag <rune>*                        → "<model>\t-"       rendering of parseTag (fixed code) + ws flag
     tablesum                           → "<counts of Gen.tagTable>\t-"
     stype <fty>                        → "<schema type of the field type in the static table Gen.tagFacts>\t-"
@@ -19,6 +19,7 @@ import Gozod.Gen.TagTable
 import Gozod.Model.TagGraph
 import Gozod.Model.TagRules
 import Gozod.Model.TagSwitch
+import Gozod.Model.TagMeaningProbe
 import Gozod.Gen.TagSwitches
 import Gozod.Gen.TagGraph
 namespace Gozod.Drv.C06
@@ -93,14 +94,23 @@ def handle : List String → String
     match tagToks.mapM String.toNat?, probeToks.mapM String.toNat? with
     | some tag, some v => b2s (Rules.Code.accepts tag v) ++ "\t" ++ b2s (Rules.Spec.accepts tag v)
     | _, _ => "bad-op"
+  | "graphagain" :: root :: _how :: toks =>       -- the same value after every other root was built: the history plays no role
+    match findRow root, Graph.readVal (toks.length + 1) toks with
+    | some r, some (v, []) => b2s (Graph.Code.check r.env v) ++ "\t" ++ b2s (Graph.Spec.vStruct r.env 0 v)
+    | _, _ => "bad-op"
   | "graph" :: root :: _how :: toks =>
     match findRow root, Graph.readVal (toks.length + 1) toks with
     | some r, some (v, []) => b2s (Graph.Code.check r.env v) ++ "\t" ++ b2s (Graph.Spec.vStruct r.env 0 v)
     | _, _ => "bad-op"
-  | ["cell", _fty, rules, probe] =>
-    match parseRules rules, Probe.ofString? probe with
-    | some rs, some p => let s := b2s (Spec.accept rs p); s!"{s} {s}"
-    | _, _ => "bad-op"
+  | ["cell", fty, rules, probe] =>
+    -- model: the ∀-value transcription `Mean.Code.accepts` on the REAL tag text (rule tokens joined by commas,
+    -- parsed by the tag-parser model) and the probe's value; spec: the round-1 oracle `Tags.Spec.accept`
+    match parseRules rules, Probe.ofString? probe, FTy.ofString? fty with
+    | some rs, some p, some t =>
+      let tag : TagParser.Str := (rules.toList.map fun c => if c == '+' then 0x2C else c.toNat)
+      let m := Mean.Code.accepts Mean.probeLang (Mean.kindOf t) (Rules.rulesOf tag) (Mean.valOf t p)
+      s!"{b2s m} {b2s (Spec.accept rs p)}"
+    | _, _, _ => "bad-op"
   | "tag" :: runes =>
     match runes.mapM String.toNat? with
     | some t => tagObs false t ++ "\t-"
